@@ -26,13 +26,23 @@ class Ctx:
         self.single = spec.get('single')      # replay: only this case index
         self.resume = spec.get('resume')      # {'index': case, 'at': position inside it} after a crash inside a case
         self._last_stat = time.time()
+        self._last_tick = time.time()
 
     @property
     def L(self):
         if self._L is None:
             from . import lib
             self._L = lib.get()
+            # heartbeat: a case that keeps making library calls is making progress, however long it takes
+            self._L.tick = self._tick
         return self._L
+
+    def _tick(self):
+        now = time.time()
+        if now - self._last_tick > 5:
+            self._last_tick = now
+            self._out.write('{"t":"tick"}\n')
+            self._out.flush()
 
     def emit(self, msg):
         self._out.write(json.dumps(msg, default=repr) + '\n')
